@@ -79,6 +79,37 @@ func newVoxels3(bb sdf.Box3, org v3.Vec, size float64, mask int, scale float64) 
 	return s
 }
 
+// newSlab3 is a 3x3x3 voxel block: two layers (along axis ax) are solid, the outer layer on side `full` holds
+// the voxels of mask (9 bits): cavities under / beside a solid slab, among them the arrangements in which
+// a finest cell inside the slab touches the surface with three or four of its corners only.
+func newSlab3(bb sdf.Box3, org v3.Vec, size float64, ax, full, mask int, scale float64) *voxels3 {
+	s := &voxels3{bb: bb, scale: scale}
+	dims := [3]int{3, 3, 3}
+	s.hull = box3{org, org.Add(v3.Vec{X: float64(dims[0]) * size, Y: float64(dims[1]) * size, Z: float64(dims[2]) * size})}
+	for i := 0; i < dims[0]; i++ {
+		for j := 0; j < dims[1]; j++ {
+			for k := 0; k < dims[2]; k++ {
+				idx := [3]int{i, j, k}
+				lo := org.Add(v3.Vec{X: float64(i) * size, Y: float64(j) * size, Z: float64(k) * size})
+				b := box3{lo, lo.Add(v3.Vec{X: size, Y: size, Z: size})}
+				// the cavity layer is the outer layer on side `full` (0: low, 1: high); the other two are solid,
+				// so a cell of the middle layer is farther from every face of the block than half a diagonal
+				present := idx[ax] != 2*full
+				if !present {
+					u, w := idx[(ax+1)%3], idx[(ax+2)%3]
+					present = mask&(1<<(u*3+w)) != 0
+				}
+				if present {
+					s.present = append(s.present, b)
+				} else {
+					s.absent = append(s.absent, b)
+				}
+			}
+		}
+	}
+	return s
+}
+
 type box2 struct{ lo, hi v2.Vec }
 
 func (b box2) dist(p v2.Vec) float64 {
@@ -283,6 +314,10 @@ func main() {
 		bb := sdf.Box3{Min: v3.Vec{X: -S / 2, Y: -S / 2, Z: -S / 2}, Max: v3.Vec{X: S / 2, Y: S / 2, Z: S / 2}}
 		mk := func() render.Render3 { return render.NewMarchingCubesOctree(n) }
 		l, err := lattice.Discover3(mk(), bb, 0)
+		if ce, ok := err.(*lattice.CoverageError); ok {
+			c.Violation("octree"+"|sampled-volume-does-not-cover-bounding-box|cell-never-visited", ce.Msg, map[string]any{"renderer": "octree", "unvisited_corner": ce.Corner})
+			continue
+		}
 		if err != nil || l.Stride != 2 {
 			c.HarnessError("octree lattice discovery n=%d: %v", n, err)
 			continue
@@ -348,6 +383,58 @@ func main() {
 		})
 		states += done
 		trans += tr
+		// slabs with cavities: 3x3x3 voxel blocks, two layers solid, every subset of the third layer
+		if n >= 8 {
+			type sjob struct {
+				mask, ax, full int
+				i0, j0, k0     int
+				align          float64
+			}
+			var sj []sjob
+			w := vlib.Pick(c, 1, 2)
+			for _, al := range aligns {
+				for ax := 0; ax < 3; ax++ {
+					for full := 0; full < 2; full++ {
+						for i0 := 1; i0 <= w; i0++ {
+							for j0 := 1; j0 <= w; j0++ {
+								for k0 := 1; k0 <= w; k0++ {
+									for mask := 0; mask < 511; mask++ {
+										sj = append(sj, sjob{mask, ax, full, i0, j0, k0, al})
+									}
+								}
+							}
+						}
+					}
+				}
+			}
+			var tr2 int64
+			done2 := c.ParFor(len(sj), func(ji int) {
+				j := sj[ji]
+				org := l.Corner(j.i0, j.j0, j.k0).Add(v3.Vec{X: j.align * cell, Y: j.align * cell, Z: j.align * cell})
+				s := newSlab3(bb, org, cell, j.ax, j.full, j.mask, 1)
+				got := render.ToTriangles(s, mk())
+				e1 := s.evals.Load()
+				sc := &scaled3{s: newSlab3(bb, org, cell, j.ax, j.full, j.mask, 1), k: k}
+				all := render.ToTriangles(sc, mk())
+				e2 := sc.n.Load()
+				want := ref3(l, s)
+				gk, ak, wk := triKeys(got, 1), triKeys(all, 1), triKeys(want, 1)
+				desc := map[string]any{"renderer": "octree", "meshCells": n, "solid": "3x3x3 voxel block, two solid layers, cavities in the third", "two_voxel_axis": j.ax, "solid_layer": j.full, "other_layer_mask": j.mask, "block_origin_corner": []int{j.i0, j.j0, j.k0}, "alignment_cells": j.align}
+				if a, b := diff(gk, ak); len(a)+len(b) > 0 {
+					c.Violation("octree|differs-from-unpruned-render|slab-with-cavities|"+alignName(j.align), fmt.Sprintf("octree n=%d slab axis %d solid layer %d other layer %#x at %d,%d,%d align %g: %d triangles only with pruning, %d only without", n, j.ax, j.full, j.mask, j.i0, j.j0, j.k0, j.align, len(a), len(b)), desc)
+				}
+				if a, b := diff(gk, wk); len(a)+len(b) > 0 {
+					c.Violation("octree|differs-from-every-finest-cell|slab-with-cavities|"+alignName(j.align), fmt.Sprintf("octree n=%d slab axis %d solid layer %d other layer %#x at %d,%d,%d align %g: %d triangles not in the finest-cell reference, %d missing", n, j.ax, j.full, j.mask, j.i0, j.j0, j.k0, j.align, len(a), len(b)), desc)
+				}
+				if e1 < e2 {
+					atomic.AddInt64(&nontrivial, 1)
+				}
+				atomic.AddInt64(&tr2, int64(len(got)))
+			})
+			states += done2
+			trans += tr2
+			samples = append(samples, map[string]any{"renderer": "octree", "meshCells": n, "family": "3x3x3 voxel blocks: two solid layers + every subset of the third", "jobs": len(sj)})
+		}
 		samples = append(samples, map[string]any{"renderer": "octree", "meshCells": n, "lattice_corners": []int{nx, ny, nz}, "jobs": len(jobs), "example": map[string]any{"voxel_mask": "0x96", "origin_corner": []int{1, 2, 1}, "alignment": 1e-5, "voxel_size_cells": 1}})
 	}
 	// analytic 1-Lipschitz shapes
@@ -386,6 +473,10 @@ func main() {
 		s := boxed3{shapes3[j.si].s, bb}
 		mk := func() render.Render3 { return render.NewMarchingCubesOctree(j.n) }
 		l, err := lattice.Discover3(mk(), bb, 0)
+		if ce, ok := err.(*lattice.CoverageError); ok {
+			c.Violation("octree"+"|sampled-volume-does-not-cover-bounding-box|cell-never-visited", ce.Msg, map[string]any{"renderer": "octree", "unvisited_corner": ce.Corner})
+			return
+		}
 		if err != nil {
 			c.HarnessError("octree lattice discovery (scene) n=%d: %v", j.n, err)
 			return
@@ -423,6 +514,10 @@ func main() {
 		bb := sdf.Box2{Min: v2.Vec{X: -S / 2, Y: -S / 2}, Max: v2.Vec{X: S / 2, Y: S / 2}}
 		mk := func() render.Render2 { return render.NewMarchingSquaresQuadtree(n) }
 		l, err := lattice.Discover2(mk(), bb, 0)
+		if ce, ok := err.(*lattice.CoverageError); ok {
+			c.Violation("quadtree"+"|sampled-area-does-not-cover-bounding-box|cell-never-visited", ce.Msg, map[string]any{"renderer": "quadtree", "unvisited_corner": ce.Corner})
+			continue
+		}
 		if err != nil || l.Stride != 2 {
 			c.HarnessError("quadtree lattice discovery n=%d: %v", n, err)
 			continue
@@ -539,6 +634,10 @@ func main() {
 		bb := sdf.Box2{Min: v2.Vec{X: -1.5, Y: -1.5}, Max: v2.Vec{X: 1.5, Y: 1.5}}
 		mk := func() render.Render2 { return render.NewMarchingSquaresQuadtree(j.n) }
 		l, err := lattice.Discover2(mk(), bb, 0)
+		if ce, ok := err.(*lattice.CoverageError); ok {
+			c.Violation("quadtree"+"|sampled-area-does-not-cover-bounding-box|cell-never-visited", ce.Msg, map[string]any{"renderer": "quadtree", "unvisited_corner": ce.Corner})
+			return
+		}
 		if err != nil {
 			c.HarnessError("quadtree lattice discovery (scene) n=%d: %v", j.n, err)
 			return
